@@ -4,7 +4,7 @@
 cd /verif
 ls seeded | xargs -P ${P:-6} -I{} sh -c '
   ID={}; D=/verif/seeded/$ID
-  PROP=$(python3 -c "import json;print(json.load(open(\"$D/meta.json\"))[\"property\"])" 2>/dev/null)
+  PROP=$(python3 -c "import json;m=json.load(open(\"$D/meta.json\"));print(m.get(\"detected_by_property\",m[\"property\"]))" 2>/dev/null)
   [ -z "$PROP" ] && { echo "$ID no-meta"; exit 0; }
   SCR=$(mktemp -d /tmp/seed.XXXXXX)
   git -C /repo archive HEAD | tar -x -C $SCR
